@@ -1497,6 +1497,65 @@ Proof.
   rewrite Hf in Heq. unfold deleg in Heq. destruct r; cbn [zres_equiv] in Heq; try contradiction. subst. reflexivity.
 Qed.
 
+(* -- "returns the zone's records of the asked type at that name (all types for ANY) ...; the CNAME
+      instead when one exists and neither CNAME nor ANY was asked" -- *)
+Lemma classify_answer name qt rs :
+  (rtype_matches RT_CNAME qt = true \/ of_type RT_CNAME rs = []) ->
+  classify name qt rs = ZAnswer (map (fun r => zr_to_rr r name) (filter (fun r => rtype_matches (zr_type r) qt) rs)).
+Proof.
+  intro H. unfold classify.
+  assert (E : (if rtype_matches RT_CNAME qt then [] else of_type RT_CNAME rs) = []).
+  { destruct H as [-> | ->]; [reflexivity|]. destruct (rtype_matches RT_CNAME qt); reflexivity. }
+  rewrite E. reflexivity.
+Qed.
+
+Lemma classify_cname name qt rs rc rest c :
+  rtype_matches RT_CNAME qt = false -> of_type RT_CNAME rs = rc :: rest -> zr_data rc = RD_Name c ->
+  classify name qt rs = ZCname c (zr_to_rr rc name).
+Proof. intros Hm Hc Hd. unfold classify. rewrite Hm, Hc, Hd. reflexivity. Qed.
+
+(* an existing name that is not a delegation point (or is asked for NS) is classified on its own records *)
+Theorem existing_name_classified apex s ops name p z qt r :
+  lookup_ctx apex s ops name p z -> zone_resolve z name qt = Some (Ok r) ->
+  let fz := flat_of_ops apex s ops in
+  exists_node fz p -> (p = [] \/ recs_at (f_norm fz) p RT_NS = [] \/ qt = RT_NS) ->
+  zres_equiv r (classify name qt (all_at (f_norm fz) p)) /\
+  (qt <> QT_Wildcard -> r = classify name qt (all_at (f_norm fz) p)).
+Proof.
+  intros Hc Hr fz Hex Hp. pose proof (lookup_flat _ _ _ _ _ _ _ _ Hc Hr) as Heq.
+  destruct Hc as (_ & _ & _ & _ & Hd & _). fold fz in Heq, Hd.
+  rewrite (flat_exists _ _ _ _ _ Hd Hex) in Heq.
+  assert (Hcond : negb (is_nil p) && (negb (is_nil (recs_at (f_norm fz) p RT_NS)) && negb (qt =? RT_NS)) = false).
+  { destruct Hp as [-> |[-> | ->]]; [reflexivity|rewrite andb_false_r; reflexivity|].
+    rewrite N.eqb_refl. cbn [negb]. rewrite !andb_false_r. reflexivity. }
+  rewrite Hcond in Heq. exact Heq.
+Qed.
+
+(* -- "records synthesised from the wildcard at the closest existing ancestor when the name itself
+      does not exist" (for wildcard sets without NS, or an NS question) -- *)
+Theorem missing_name_from_wildcard apex s ops name x l e z qt r :
+  lookup_ctx apex s ops name (x ++ l :: e) z -> zone_resolve z name qt = Some (Ok r) ->
+  let fz := flat_of_ops apex s ops in
+  closest_encloser fz (x ++ l :: e) e ->
+  (e = [] \/ recs_at (f_norm fz) e RT_NS = []) ->
+  has_wild fz e = true ->
+  (recs_at (f_wild fz) e RT_NS = [] \/ qt = RT_NS) ->
+  zres_equiv r (classify name qt (all_at (f_wild fz) e)) /\
+  (qt <> QT_Wildcard -> r = classify name qt (all_at (f_wild fz) e)).
+Proof.
+  intros Hc Hr fz (Hs & He & Hmax) Hns Hw Hwns. pose proof (lookup_flat _ _ _ _ _ _ _ _ Hc Hr) as Heq.
+  destruct Hc as (_ & _ & _ & _ & Hd & _). fold fz in Heq, Hd.
+  assert (Hl : ~ exists_node fz (l :: e)).
+  { intro H. assert (Hle : is_suffix (l :: e) e) by (apply Hmax; [apply is_suffix_app|exact H]).
+    apply is_suffix_length in Hle. cbn [length] in Hle. lia. }
+  rewrite (flat_missing _ _ _ _ _ _ _ Hd He Hl), Hw in Heq.
+  assert (H1 : negb (is_nil e) && negb (is_nil (recs_at (f_norm fz) e RT_NS)) = false).
+  { destruct Hns as [-> | ->]; [reflexivity|apply andb_false_r]. }
+  assert (H2 : negb (is_nil (of_type RT_NS (all_at (f_wild fz) e))) && negb (qt =? RT_NS) = false).
+  { rewrite of_type_all_at. destruct Hwns as [-> | ->]; [reflexivity|]. rewrite N.eqb_refl. apply andb_false_r. }
+  rewrite H1, H2 in Heq. exact Heq.
+Qed.
+
 (* ================= the boolean forms are the stated notions ================= *)
 
 Lemma is_cut_spec z p qt c : c <> [] -> is_suffix c p -> (is_cut z p qt c = true <-> cut z p qt c).
